@@ -254,7 +254,7 @@ def mismatch_case(draw, tier):
         la, lb = lb, la
     name = draw(st.sampled_from(["add", "multiply", "less", "bitwise_and", "maximum", "subtract"]))
     return {"la": la, "lb": lb, "op": name, "spell": draw(st.sampled_from(["ufunc", "operator"])) if BINARY[name] else "ufunc",
-            "za": draw(st.sampled_from([0, 0, 1, 2])), "zb": draw(st.sampled_from([0, 0, 1, 2]))}
+            "za": draw(st.sampled_from(LAZY_CHOICES)), "zb": draw(st.sampled_from(LAZY_CHOICES))}
 
 
 def mk(kinds):
